@@ -46,7 +46,7 @@ EvalArgs(a, V, PN) ==
       Mixed(v) == v.k = "sym" /\ RegsOf(v.term) # {} /\ ParsOf(v.term) # {}
       mixed == (\E i \in 1..Len(args) : Mixed(args[i])) \/ (\E i \in 1..Len(kw) : Mixed(kw[i].v))
       ps == ParamsSeq(a.args) \o (LET RECURSIVE F(_) F(i) == IF i > Len(a.kw) THEN <<>> ELSE KwParams(a.kw[i].v) \o F(i + 1) IN F(1))
-  IN [args |-> args, kw |-> kw, bad |-> IF b1 # None THEN b1 ELSE IF b2 # None THEN b2 ELSE IF dup \/ mixed THEN Unspec ELSE None,
+  IN [args |-> args, kw |-> kw, bad |-> IF b1 # None THEN b1 ELSE IF b2 # None THEN b2 ELSE IF dup \/ mixed THEN U("BBLoad:49") ELSE None,
       ps |-> [i \in 1..Len(ps) |-> [sym |-> TRUE, n |-> ps[i]]]]
 
 PNames(P) == {P[i].n : i \in {j \in 1..Len(P) : ~P[j].sym}}
@@ -56,55 +56,55 @@ Recast(k, v) == IF v.x THEN Num(k, v.re, v.im) ELSE Inx(k, v.term)       \* same
 \* PYTHON_TYPES[ty](value): what a declared scalar / loop variable holds
 \* ... and NUMPY_TYPES[ty](value) when the value is a whole array (an array-valued expression assigned to a scalar-typed name)
 ConvArr(ty, a) ==
-  IF ~NumArr(a) THEN Unspec
-  ELSE IF Len(a.rows) = 1 /\ Len(a.rows[1]) = 1 THEN Unspec          \* a 1x1 array is accepted by the Python scalar constructors
+  IF ~NumArr(a) THEN U("BBLoad:59")
+  ELSE IF Len(a.rows) = 1 /\ Len(a.rows[1]) = 1 THEN U("BBLoad:60")          \* a 1x1 array is accepted by the Python scalar constructors
   ELSE CASE ty \in {"int", "float"} /\ a.ty = "complex" -> Raise("other", "complex")
-         [] ty = "int" -> (IF a.ty = "int" THEN a ELSE Unspec)
+         [] ty = "int" -> (IF a.ty = "int" THEN a ELSE U("BBLoad:62"))
          [] ty = "float" -> Arr("float", [r \in 1..Len(a.rows) |-> [c \in 1..Len(a.rows[r]) |-> Recast("float", a.rows[r][c])]])
          [] ty = "complex" -> Arr("complex", [r \in 1..Len(a.rows) |-> [c \in 1..Len(a.rows[r]) |-> Recast("complex", a.rows[r][c])]])
-         [] OTHER -> Unspec
+         [] OTHER -> U("BBLoad:65")
 Conv(ty, v) ==
   CASE IsBad(v) -> v
     [] v.k = "sym" -> v
     [] v.k = "arr" -> ConvArr(ty, v)
-    [] ty = "int" -> (CASE v.k = "int" -> v [] v.k = "complex" -> Raise("other", "complex") [] OTHER -> Unspec)
+    [] ty = "int" -> (CASE v.k = "int" -> v [] v.k = "complex" -> Raise("other", "complex") [] OTHER -> U("BBLoad:70"))
     [] ty = "float" -> (CASE v.k = "int" -> Recast("float", v) [] v.k = "float" -> v
-                          [] v.k = "complex" -> Raise("other", "complex") [] OTHER -> Unspec)
+                          [] v.k = "complex" -> Raise("other", "complex") [] OTHER -> U("BBLoad:72"))
     [] ty = "complex" -> (CASE v.k \in {"int", "float"} -> Recast("complex", v)
-                            [] v.k = "complex" -> v [] OTHER -> Unspec)
-    [] ty = "str" -> (IF v.k = "str" THEN v ELSE Unspec)
-    [] ty = "bool" -> (IF v.k = "bool" THEN v ELSE Unspec)
-    [] OTHER -> Unspec
+                            [] v.k = "complex" -> v [] OTHER -> U("BBLoad:74"))
+    [] ty = "str" -> (IF v.k = "str" THEN v ELSE U("BBLoad:75"))
+    [] ty = "bool" -> (IF v.k = "bool" THEN v ELSE U("BBLoad:76"))
+    [] OTHER -> U("BBLoad:77")
 \* a listed loop value converted to the loop type must compare equal to what was written
 LoopConv(ty, v) ==
   CASE IsBad(v) -> v
-    [] v.k \in {"sym", "arr", "pname", "list"} -> Unspec
-    [] ty = "int" -> (CASE v.k = "int" -> v [] v.k = "float" -> (IF v.x /\ ~QIsInt(v.re) THEN Raise("other", "loopval") ELSE Unspec)
-                        [] v.k = "str" -> Raise("other", "loopval") [] v.k = "complex" -> Raise("other", "loopval") [] OTHER -> Unspec)
+    [] v.k \in {"sym", "arr", "pname", "list"} -> U("BBLoad:81")
+    [] ty = "int" -> (CASE v.k = "int" -> v [] v.k = "float" -> (IF v.x /\ ~QIsInt(v.re) THEN Raise("other", "loopval") ELSE U("BBLoad:82"))
+                        [] v.k = "str" -> Raise("other", "loopval") [] v.k = "complex" -> Raise("other", "loopval") [] OTHER -> U("BBLoad:83"))
     [] ty = "float" -> (CASE v.k = "int" -> Recast("float", v) [] v.k = "float" -> v
-                          [] v.k \in {"str", "complex"} -> Raise("other", "loopval") [] OTHER -> Unspec)
+                          [] v.k \in {"str", "complex"} -> Raise("other", "loopval") [] OTHER -> U("BBLoad:85"))
     [] ty = "str" -> (IF v.k = "str" THEN v ELSE Raise("other", "loopval"))
     [] ty = "bool" -> (CASE v.k = "bool" -> v [] v.k = "str" -> Raise("other", "loopval")
-                         [] v.k = "float" -> (IF v.x /\ v.re # <<0, 1>> /\ v.re # <<1, 1>> THEN Raise("other", "loopval") ELSE Unspec)
-                         [] OTHER -> Unspec)
-    [] OTHER -> Unspec
+                         [] v.k = "float" -> (IF v.x /\ v.re # <<0, 1>> /\ v.re # <<1, 1>> THEN Raise("other", "loopval") ELSE U("BBLoad:88"))
+                         [] OTHER -> U("BBLoad:89"))
+    [] OTHER -> U("BBLoad:90")
 
 \* element of an array of dtype ty
 ElemConv(ty, v) ==
   CASE IsBad(v) -> v
     [] v.k = "sym" -> v
-    [] ~IsNum(v) -> Unspec
-    [] ty = "int" -> (CASE v.k = "int" -> v [] v.k = "complex" -> Raise("other", "arraytype") [] OTHER -> Unspec)
+    [] ~IsNum(v) -> U("BBLoad:96")
+    [] ty = "int" -> (CASE v.k = "int" -> v [] v.k = "complex" -> Raise("other", "arraytype") [] OTHER -> U("BBLoad:97"))
     [] ty = "float" -> (CASE v.k = "int" -> Recast("float", v) [] v.k = "float" -> v [] OTHER -> Raise("other", "arraytype"))
     [] ty = "complex" -> Recast("complex", v)
-    [] OTHER -> Unspec
+    [] OTHER -> U("BBLoad:100")
 
 IsBarePar(e) == e.t = "par"
 \* rows of values; bare parameters stay where they were written (row r, column c)
 ArrayValue(it, V, PN) ==
   LET rows == [r \in 1..Len(it.rows) |-> [c \in 1..Len(it.rows[r]) |->
                  IF IsBarePar(it.rows[r][c]) THEN Sym(TPar(it.rows[r][c].p))
-                 ELSE LET v == Eval(it.rows[r][c], V, PN) IN IF v.k = "sym" THEN Unspec ELSE ElemConv(it.ty, v)]]     \* only a BARE {p} is a specified symbolic element
+                 ELSE LET v == Eval(it.rows[r][c], V, PN) IN IF v.k = "sym" THEN U("BBLoad:107") ELSE ElemConv(it.ty, v)]]     \* only a BARE {p} is a specified symbolic element
       flat == Flatten(rows)
       bad == SeqBad(flat, 1)
       nrows == Len(rows)
@@ -112,10 +112,10 @@ ArrayValue(it, V, PN) ==
       npar == Cardinality({i \in 1..Len(flat) : flat[i].k = "sym"})
       whole == nrows = 1 /\ Len(flat) = 1 /\ npar = 1            \* a lone {p}: the whole array is the parameter
   IN CASE bad # None -> bad
-       [] it.ty \notin {"int", "float", "complex"} -> Unspec
-       [] nrows = 0 -> Unspec
+       [] it.ty \notin {"int", "float", "complex"} -> U("BBLoad:115")
+       [] nrows = 0 -> U("BBLoad:116")
        [] whole -> IF Len(it.shape) = 0 THEN Raise("other", "noshape")
-                   ELSE IF Len(it.shape) # 2 THEN Unspec
+                   ELSE IF Len(it.shape) # 2 THEN U("BBLoad:118")
                    ELSE Arr(it.ty, [r \in 1..it.shape[1] |-> [c \in 1..it.shape[2] |->
                            Sym(TPar(flat[1].term.p \o "_" \o ToString(r - 1) \o "_" \o ToString(c - 1)))]])
        [] ragged -> Raise("other", "ragged")
@@ -138,8 +138,8 @@ EmptyProg == [name |-> "blackbird_program", version |-> "1.0",
 \* a symbolic argument that mentions measured registers is delivered as a register transform
 Deliver(v) == IF v.k = "sym" /\ RegsOf(v.term) # {} THEN [k |-> "rrt", term |-> v.term] ELSE v
 ModeOf(v) == IF IsBad(v) THEN v
-             ELSE IF v.k = "int" THEN (IF v.x THEN v ELSE Unspec)          \* an integer too large for the model
-             ELSE IF v.k \in {"float", "complex", "str", "sym", "arr", "list", "pname"} THEN Raise("other", "mode") ELSE Unspec
+             ELSE IF v.k = "int" THEN (IF v.x THEN v ELSE U("BBLoad:141"))          \* an integer too large for the model
+             ELSE IF v.k \in {"float", "complex", "str", "sym", "arr", "list", "pname"} THEN Raise("other", "mode") ELSE U("BBLoad:142")
 
 \* ------------------------------------------------------------------ template instantiation (program.__call__)
 RECURSIVE SubstT(_, _)
@@ -155,12 +155,21 @@ EvalT(t) == CASE t.t = "num" -> t.v
               [] t.t = "bin" -> Arith(t.op, EvalT(t.l), EvalT(t.r))
               [] t.t = "fn" -> Apply(t.f, EvalT(t.a))
               [] OTHER -> Sym(t)
+\* a value that is not a number (a measured-register transform handed to an included template): a bare
+\* {p} is replaced by the value itself; inside a larger expression the arithmetic on such an object is refused (TypeError)
+OpaqueNames(env) == {env[i].n : i \in {j \in 1..Len(env) : env[j].v.k = "rrt"}}
+OddNames(env) == {env[i].n : i \in {j \in 1..Len(env) : ~(IsNum(env[j].v) \/ env[j].v.k \in {"sym", "rrt", "str", "pname"})}}     \* bool, list, array values
+InstSym(t, env) ==
+  IF ~(ParsOf(t) \subseteq {env[i].n : i \in 1..Len(env)}) THEN Raise("ValueError", "missing")
+  ELSE IF ParsOf(t) \cap OddNames(env) # {} THEN U("BBLoad:InstSym")
+  ELSE IF ParsOf(t) \cap OpaqueNames(env) # {} THEN (IF t.t = "par" THEN Get(env, t.p) ELSE Raise("other", "opaque-in-expression"))
+  ELSE EvalT(SubstT(t, env))
 InstVal(v, env) ==
-  CASE v.k = "sym" -> IF ParsOf(v.term) \subseteq {env[i].n : i \in 1..Len(env)} THEN EvalT(SubstT(v.term, env)) ELSE Raise("ValueError", "missing")
+  CASE v.k = "sym" -> InstSym(v.term, env)
     [] v.k = "arr" -> LET rows == [r \in 1..Len(v.rows) |-> [c \in 1..Len(v.rows[r]) |->
                                      IF v.rows[r][c].k = "sym"
-                                     THEN (IF ParsOf(v.rows[r][c].term) \subseteq {env[i].n : i \in 1..Len(env)}
-                                           THEN EvalT(SubstT(v.rows[r][c].term, env)) ELSE Raise("ValueError", "missing"))
+                                     THEN (IF ParsOf(v.rows[r][c].term) \cap (OpaqueNames(env) \cup OddNames(env)) # {} THEN U("BBLoad:InstArr")
+                                           ELSE InstSym(v.rows[r][c].term, env))
                                      ELSE v.rows[r][c]]]
                       bad == SeqBad(Flatten(rows), 1)
                   IN IF bad # None THEN bad ELSE Arr(v.ty, rows)
@@ -175,6 +184,7 @@ ParamSet(prog) == {prog.params[i] : i \in 1..Len(prog.params)}
 IsTemplate(prog) == ParamSet(prog) # {}
 Instantiate(prog, env) ==
   IF ~IsTemplate(prog) THEN Raise("ValueError", "not a template")
+  ELSE IF \E i \in 1..Len(env) : env[i].v.k \in {"str", "pname", "list"} THEN Raise("ValueError", "dim")     \* an iterable value must be a 2-d array
   ELSE LET ops == [i \in 1..Len(prog.ops) |-> InstOp(prog.ops[i], env)]
            vars == [i \in 1..Len(prog.vars) |-> [n |-> prog.vars[i].n, v |-> InstVal(prog.vars[i].v, env)]]
            b1 == LET RECURSIVE F(_) F(i) == IF i > Len(ops) THEN None
@@ -264,14 +274,21 @@ DoStmt(S, it) ==
            ELSE
            LET bb == IncGet(f, it.op).prog
                tmpl == IsTemplate(bb)
-               env == [i \in 1..Len(op.kw) |-> [n |-> op.kw[i].k, v |-> op.kw[i].v]]
-               inst == IF it.hasargs /\ tmpl THEN Instantiate(bb, env) ELSE [k |-> "ok", prog |-> bb]
+               \* a function of measured registers is handed to the template as its expression (not yet delivered as a transform);
+               \* the instantiated arguments that depend on measured registers are delivered as transforms afterwards
+               env == [i \in 1..Len(r.kw) |-> [n |-> r.kw[i].k, v |-> r.kw[i].v]]
+               inst0 == IF it.hasargs /\ tmpl THEN Instantiate(bb, env) ELSE [k |-> "ok", prog |-> bb]
+               inst == IF inst0.k # "ok" \/ ~(it.hasargs /\ tmpl) THEN inst0
+                       ELSE [inst0 EXCEPT !.prog.ops = [i \in 1..Len(@) |->
+                               IF ~@[i].hasargs THEN @[i]
+                               ELSE [@[i] EXCEPT !.args = [j \in 1..Len(@) |-> Deliver(@[j])],
+                                                 !.kw = [j \in 1..Len(@) |-> [k |-> @[j].k, v |-> Deliver(@[j].v)]]]]]
            IN CASE Len(modes) # Cardinality(bb.modes) -> Fail(S, Raise("other", "modecount"))
                 [] it.hasargs /\ ~tmpl -> Fail(S, Raise("other", "noargs"))
                 [] it.hasargs /\ {op.kw[i].k : i \in 1..Len(op.kw)} # ParamSet(bb) -> Fail(S, Raise("other", "kwargs"))
                 [] ~it.hasargs /\ tmpl -> Fail(S, Raise("other", "missingargs"))
-                [] it.hasargs /\ Len(op.args) > 0 -> Fail(S, Unspec)
-                [] Cardinality({modes[i] : i \in 1..Len(modes)}) # Len(modes) -> Fail(S, Unspec)
+                [] it.hasargs /\ Len(op.args) > 0 -> Fail(S, U("BBLoad:273"))
+                [] Cardinality({modes[i] : i \in 1..Len(modes)}) # Len(modes) -> Fail(S, U("BBLoad:274"))
                 [] inst.k # "ok" -> Fail(S, inst)
                 [] OTHER ->
                    LET from == SortSet(inst.prog.modes)             \* callee modes in increasing order
